@@ -261,7 +261,8 @@ def handleUriProg : Handler
       let out := C17u.uriTokens st.u ++ [encHex st.u.lastPathSegment] ++ viewTokens st.queryView ++ ["#", encHex full, "#"] ++
         C17u.uriTokens v.u ++ viewTokens v.queryView ++ [encHex v.fullURI]
       -- the spec, on the implementation's tokens
-      let rawQ := if st.args.isEmpty then st.u.query else []
+      -- the raw query string is written iff `QueryArgs()` was not used since it was set (/repo 97b0e80)
+      let rawQ := if st.parsed then [] else st.u.query
       let (ok, wf, why) := match impl with
         | sc :: ho :: pa :: _po :: _qs :: ha :: _us :: _pw :: _seg :: n :: t =>
           match takeKVs n.toNat! t with
@@ -279,7 +280,8 @@ def handleUriProg : Handler
           | _ => (false, true, "unparsable")
         | _ => (false, true, "unparsable")
       pure { out, spec := !wf || ok,
-             cls := if C17u.hasCtl st.u.hash then "uri-fragment-ctl" else if st.staleQuery then "uri-stale-query" else "",
+             -- the query conjunct is demanded in ALL states (the former class `uri-stale-query` is repaired: a recurrence is a violation)
+             cls := if C17u.hasCtl st.u.hash then "uri-fragment-ctl" else "",
              specNote := "a URI built by any program of setters / Parse / Update / QueryArgs mutations survives FullURI -> Parse (user-info is never written): " ++ why,
              tag := "uriprog:" ++ boolTok wf ++ boolTok st.staleQuery ++ boolTok (!st.u.username.isEmpty) ++ ":" ++
                     (if ops.length ≤ 3 then String.join (ops.map uriOpTag) else sizeClass ops.length ++ "…" ++ String.join ((ops.drop (ops.length - 2)).map uriOpTag)) }
